@@ -1325,3 +1325,38 @@ def tparam_cases():
                     continue
                 out.append(Case("package p\n" + (c % (f + t)) + "\n", "F-valid"))
     return out
+
+
+# ---------------------------------------------------------------- C04: the same grouping on every path into the expression parser
+EXPR_CONTEXTS = ["type _ [%s]int", "var _ [%s]int", "var _ = x[%s]", "var _ = f(%s)", "var _ = T{%s: 1}", "var _ = []int{%s}",
+                 "func _() { switch { case %s: } }", "func _() { if %s {} }", "func _() { for %s {} }", "func _() { switch %s {} }",
+                 "func _() { %s }", "func _() { x = %s }", "func _() { return %s }", "func _() { go f(%s) }", "func _() { x := %s; _ = x }",
+                 "func _() { for i := %s; ; {} }", "func _() { ch <- %s }", "type _[P any] [%s]int", "func _() { type _ [%s]int }",
+                 "var _ = func() int { return %s }", "func _() { L: %s }", "func _() { x[%s]++ }", "var _ = (%s)"]
+
+
+def ops_context_cases():
+    """pairs of binary operators over three identifiers in every place an expression can stand (several of them
+    continue from an identifier that was already read); triples where the parser continues from such an identifier"""
+    import itertools
+    out = []
+    names = "abcd"
+    for n, ctxs in ((2, EXPR_CONTEXTS), (3, [EXPR_CONTEXTS[0], EXPR_CONTEXTS[10], EXPR_CONTEXTS[4], EXPR_CONTEXTS[18]])):
+        for combo in itertools.product(BINOPS, repeat=n):
+            src = names[0]
+            items = [_id(0)]
+            for k, o in enumerate(combo):
+                src += " " + o + " " + names[k + 1]
+                items += [o, _id(k + 1)]
+            want = group_spec(items)
+            for ctx in ctxs:
+                out.append(Case("package p\n" + ctx % src + "\n", "F-ops-context", expected=want, note=src))
+    return out
+
+
+def oracle_contains_shape(c, line, tl=None):
+    if not line.startswith("OK "):
+        return "valid input rejected: %s" % line[:80]
+    if c.expected not in proj_shape(line):
+        return "the expression %s does not have the spec's grouping %s in this position" % (c.note, c.expected)
+    return None
